@@ -106,13 +106,14 @@ PROPS["C07"] = {
     "harness": "c07",
     "models": ["Proto/Model.v", "Generated/ProtoGen.v"],
     "rule": "valid encodings of random types/values, EVERY prefix, 12 mutations each (random byte, high-bit flip, insertion, boundary values), unknown fields of every wire type inserted at every top-level field boundary, random bytes; "
-            "observable: decoded value (canonical) / err / PANIC; compared with the Coq model's decode on the same bytes",
+            "observable: decoded value (canonical) / err / PANIC; compared with the Coq model's decode on the same bytes and, for unknown-field insertions, with the value decoded without them; "
+            "proto.Scan/Parse on all of these byte strings plus length prefixes pointing just beyond the end (buffers with exact capacity): enumerated fields / err / PANIC vs an independent field-level transcription of the wire format",
     "nontrivial": nontrivial_default,
     "trusted_base": PROTO_TB,
     "assumptions": ["universe of target types as in C03; inputs shorter than 2^31 bytes"],
     "claim": {
         "text": "Theorems (Properties/C07.v): for every supported target type and EVERY byte string the model's decode/Unmarshal returns a value or an error - never Panic (all Go slice bounds are checked in the model) and within fuel linear in the input - "
-                "with 0 <= consumed <= len. Unknown-field skipping and Scan/Parse agreement are covered by the correspondence (model vs implementation on inserted unknown fields), not yet by a theorem; allocation is not modelled.",
+                "with 0 <= consumed <= len. Unknown-field skipping is decided by correspondence (decoded value with and without the inserted fields; model vs implementation) and Scan/Parse by an independent field-level oracle on every byte string; allocation is not modelled.",
         "note": "Trusted as C16. Recursive message types (unbounded Go stack) are outside the finite-descriptor universe; memory allocation is not modelled.",
     },
 }
@@ -148,7 +149,8 @@ PROPS["C13"] = {
     "harness": "c13",
     "models": ["Thrift/Model.v"],
     "rule": "random types/values without multi-entry maps x three protocols: Marshal bytes vs an independent transcription of the Apache Thrift binary and compact protocol specifications (harness/c04.go specEnc) and vs the Coq model; "
-            "the recorded deviations (binary type codes, 3-byte binary stop field, big-endian compact doubles) are reproduced by the oracle on request so that any other deviation is still reported",
+            "the recorded deviations (binary type codes, 3-byte binary stop field, big-endian compact doubles) are reproduced by the oracle on request so that any other deviation is still reported; "
+            "decode side: alternative conformant compact encodings of each value (every field and list/set header in its long form, and long/short chosen per header) must decode to the value, checked against the implementation and the Coq model's decoder",
     "nontrivial": nontrivial_default,
     "trusted_base": THRIFT_TB + ["the specification oracle is a transcription from memory of thrift-binary-protocol.md / thrift-compact-protocol.md: no Apache Thrift implementation exists on this machine (weakest oracle of the development)"],
     "assumptions": ["the oracle writes fields in id order and elides the same fields as the package (nil pointers, zero-valued non-required fields)"],
